@@ -66,7 +66,7 @@ T = {
          "exhaustive grid enumeration + property-based testing against a reference NL table"),
 }
 COMMON = (" Every run also: alternates, case by case, between the default and a hostile ambient process state (numpy trapping divide/overflow/invalid, "
-          "RuntimeWarning as error, 3-digit decimal context, non-default numpy print options); repeats a quarter of the legs' cases in a child interpreter started with PYTHONOPTIMIZE=2 (python -OO) and another fixed hash seed; "
+          "every warning except deprecation notices as error, 3-digit decimal context, non-default numpy print options); repeats a quarter of the legs' cases in a child interpreter started with PYTHONOPTIMIZE=2 (python -OO) and another fixed hash seed; "
           "re-evaluates earlier cases after later ones; re-runs every stored failing input of the property (replays/).")
 EXTRA = {
  "volume": "a volume leg (one process decodes 4e4-1.1e6 distinct inputs in a row, comes back to identical inputs and their siblings after 4 100 ... 1 050 000 others, and ends with four concurrent callers)",
